@@ -20,6 +20,7 @@ import (
 	"path/filepath"
 	"sort"
 	"strings"
+	"sync"
 	"testing"
 	"testing/synctest"
 	"time"
@@ -44,6 +45,24 @@ var theT *testing.T
 func init() {
 	log.SetOutput(io.Discard)
 	time.Local = time.UTC
+}
+
+// bubble runs f in a synctest bubble on a helper goroutine: if the testing package ends the
+// inner test with runtime.Goexit (it does after a race report or a failed inner test), only
+// the helper goroutine ends and the worker loop still gets to record what happened.
+func bubble(f func(t *testing.T)) (panicked string) {
+	done := make(chan struct{})
+	go func() {
+		defer close(done)
+		defer func() {
+			if p := recover(); p != nil {
+				panicked = fmt.Sprint(p) // e.g. synctest: "deadlock: main bubble goroutine has exited but blocked goroutines remain"
+			}
+		}()
+		synctest.Test(theT, f)
+	}()
+	<-done
+	return panicked
 }
 
 func scratchRoot() string {
@@ -381,6 +400,11 @@ func (cn *cConn) describe() string {
 		c.Model, c.W, c.H, c.Fps, c.Serial, c.Firmware, c.DeviceID, len(c.DeviceName), c.MinS, c.MaxS, c.Preview, c.Cont, c.ThrOn, c.HasLoc, strings.Join(c.MotionKeys, "; "), cn.Chunks, cn.CutAt, b)
 }
 
+func telFor(upMs uint32, id int) zz.Tel {
+	h := verifsim.Mix(uint64(id), 7)
+	return zz.Tel{TimeOnMs: upMs, LastFFCMs: 1000, FrameCount: uint32(id), FrameMean: uint16(h), FPATemp: uint16(27000 + h%6000), FPATempFFC: uint16(27000 + (h>>16)%6000)}
+}
+
 // ---- wire format --------------------------------------------------------------------
 
 func (c *cCfg) headerBytes() []byte {
@@ -519,7 +543,7 @@ func execPlain(sc *cScenario) *cResult {
 	os.MkdirAll(outDir, 0755)
 	res.OutDir = outDir
 	resetProcessGlobals()
-	synctest.Test(theT, func(t *testing.T) {
+	bubble(func(t *testing.T) {
 		res.Start = time.Now()
 		for ci, cn := range sc.Conns {
 			cr := cConnResult{}
@@ -598,6 +622,7 @@ func resetProcessGlobals() {
 	headerInfo = nil
 	previousSnapshotID = 0
 	previousSnapshotTime = time.Time{}
+	mu = sync.Mutex{} // a run that left the request mutex locked must not poison the next run
 }
 
 // cameraPlain plays the camera daemon: header, then frames/markers cut into
@@ -1176,6 +1201,27 @@ var stubC = []string{"camera daemon (simulated peer on a net.Pipe speaking the w
 func unitsC() []verifsim.Unit {
 	return []verifsim.Unit{
 		{
+			Name: "C.crash", Props: []string{"C10"}, Run: runCCrash, MinimiseRuns: 40,
+			Rule:    "one case = 1-2 camera connections (motion recordings, continuous recorder on/off, test-recording requests, connection loss in the middle of a frame, reconnects) under the seeded scheduler; at EVERY quiescent point (every yield of the instrumented files) the observer lists the output tree and fully decodes each newly seen *.cptv; at seeded quiescent points (denser inside cptvfilerecorder.go) the tree is copied (= the state kill -9 leaves), the start-up clean-up is run on the copy and everything left must be a complete *.cptv; non-trivial = at least one crash point; distinct = interleaving signature + crash points",
+			Measure: "c10.interleaving = distinct context-switch sequences",
+			Real:    realC, Stub: stubC,
+			Assumptions: []string{"crash = process kill: files hold exactly the bytes already written with write(2); power loss (no fsync modelling) and ENOSPC are not claimed", "crash granularity = statements of the repository files; go-cptv calls are atomic steps (the library never touches a final name)"},
+		},
+		{
+			Name: "C.race", Props: []string{"C16"}, Run: runCRace, MinimiseRuns: 1,
+			Rule:    "race pass: the C.snap scenario family built with -race, scheduler off, tasks really concurrent with seeded Gosched perturbation; every 'WARNING: DATA RACE' report with a repository frame is a violation whose signature is the pair of innermost repository functions; non-trivial = every run; distinct = scenario",
+			Measure: "race reports by signature",
+			Real:    realC, Stub: stubC,
+			Assumptions: []string{"the interleaving of the race pass is chosen by the Go runtime, not by the simulator: the report replays (happens-before detector), the execution does not"},
+		},
+		{
+			Name: "C.snap", Props: []string{"C16"}, Run: runCSnap, MinimiseRuns: 60,
+			Rule:    "one case = 1-3 camera connections of uniform-valued frames (all pixels = frame number, so any mixture is visible; bad frames and clear markers included) + 1-3 client tasks issuing TakeSnapshot / TakeTestRecording / CameraInfo at tape-chosen instants of the scheduler's step clock; the seeded scheduler interleaves clients, camera and frame loop at statement granularity of the instrumented files; non-trivial = at least one request and one frame; distinct = interleaving signature (sequence of context switches with the statement labels)",
+			Measure: "c16.interleaving = distinct context-switch sequences (task, label)",
+			Real:    realC, Stub: stubC,
+			Assumptions: []string{"ring capacity >= 2 (preview-secs*fps + trigger-frames >= 2)", "scheduling points are the statements of the instrumented repository files; go-cptv, lepton3 and library calls are atomic steps", "requests are direct calls of the exported service methods (D-Bus transport stubbed)"},
+		},
+		{
 			Name: "C.trunc", Props: []string{"C14"}, Run: runCTrunc, MinimiseRuns: 20,
 			Rule:    "one case = one generated camera description encoded with the camera daemon's YAML encoder; EVERY truncation point of that header is enumerated (connection closed after k bytes, k = 0..len-1, written in seeded chunk sizes), each in its own bubble; plus a static comparison of cmd/leptond's marker constant and header keys with the recorder's; non-trivial = every case; distinct = header text",
 			Measure: "c.trunc = (header length, chunk size, stale description from an earlier connection)",
@@ -1217,7 +1263,7 @@ func runCTrunc(r *verifsim.Run) {
 		var herr error
 		var took time.Duration
 		returned := false
-		synctest.Test(theT, func(t *testing.T) {
+		bubble(func(t *testing.T) {
 			conf, err := ParseConfig(confDir)
 			if err != nil {
 				panic(err)
@@ -1283,4 +1329,281 @@ func runCTrunc(r *verifsim.Run) {
 func dirExists(p string) bool {
 	st, err := os.Stat(p)
 	return err == nil && st.IsDir()
+}
+
+// ---- scheduled execution (task scheduler decides every interleaving) ---------------------
+
+type cRequest struct {
+	Kind     byte // 's' TakeSnapshot, 't' TakeTestRecording, 'i' CameraInfo
+	Client   int
+	Invoke   int // scheduler step at invocation
+	Return   int
+	Err      string
+	Value    int // uniform pixel value of the returned frame (-1: none, -2: not uniform)
+	Torn     string
+	FrameNum int // Status.FrameCount of the returned frame
+	Info     map[string]interface{}
+	Conn     int
+}
+
+type cSchedResult struct {
+	cResult
+	Reqs      []cRequest
+	StartStep []int // per delivered frame (global index over connections): step at Process entry
+	DoneStep  []int // step at which Process had returned
+	FrameVal  []int // uniform value of that frame (0 for non-uniform scenes)
+	ConnStep  []int // step at which handleConn was entered, per connection
+	Deadlock  string
+	Steps     int
+	Switches  int
+	Sig       uint64
+	Served    map[string]int
+	TaskPanic string
+	ObsErr    *verifsim.Violation
+}
+
+type cSchedOpts struct {
+	Clients  int
+	ReqGaps  [][]int                                                   // per client: step-clock gaps between requests
+	ReqKinds [][]byte                                                  // per client
+	Observe  func(s *verifsim.Sched, outDir string, res *cSchedResult) // called at every quiescent point
+	MaxFree  int
+	Stalls   []int // optional: stall the frame loop for n steps at the k-th quiescent point (pairs k,n)
+}
+
+func uniformValue(f *cptvframe.Frame) (int, string) {
+	if f == nil {
+		return -1, ""
+	}
+	v := f.Pix[0][0]
+	for y := range f.Pix {
+		for x := range f.Pix[y] {
+			if f.Pix[y][x] != v {
+				return -2, fmt.Sprintf("pixel (0,0)=%d but (%d,%d)=%d", v, y, x, f.Pix[y][x])
+			}
+		}
+	}
+	return int(v), ""
+}
+
+func execSched(r *verifsim.Run, sc *cScenario, opt cSchedOpts) *cSchedResult {
+	res := &cSchedResult{cResult: cResult{Decoded: map[string]*cDecoded{}}}
+	root, err := os.MkdirTemp(scratchRoot(), "vs")
+	if err != nil {
+		panic(err)
+	}
+	defer os.RemoveAll(root)
+	confDir := filepath.Join(root, "etc")
+	outDir := filepath.Join(root, "out")
+	os.MkdirAll(confDir, 0755)
+	os.MkdirAll(outDir, 0755)
+	res.OutDir = outDir
+	resetProcessGlobals()
+	var pipes []net.Conn
+	func() {
+		defer func() {
+			if p := recover(); p != nil && res.Deadlock == "" {
+				res.Deadlock = fmt.Sprint(p)
+			}
+		}()
+		bp := bubble(func(t *testing.T) {
+			res.Start = time.Now()
+			s := verifsim.NewSched(r)
+			defer s.Close()
+			if opt.MaxFree >= 0 {
+				s.MaxFree = opt.MaxFree
+			}
+			verifsim.PanicHandler = func(task string, p interface{}) {
+				if res.TaskPanic == "" {
+					res.TaskPanic = fmt.Sprintf("task %s: %v", task, p)
+				}
+			}
+			var loopTask *verifsim.Task
+			curConn := 0
+			inProcess := false
+			nProc := 0
+			var curCn *cConn
+			verifsim.Hook = func(label string) {
+				switch {
+				case label == "motion/motionprocessor.go:Process:entry":
+					res.StartStep = append(res.StartStep, s.Steps)
+					res.DoneStep = append(res.DoneStep, 1<<30)
+					inProcess = true
+					if curCn != nil {
+						time.Sleep(time.Duration(curCn.Costs[nProc%len(curCn.Costs)]) * time.Millisecond)
+					}
+					nProc++
+				case inProcess && strings.HasPrefix(label, "cmd/thermal-recorder/main.go:handleConn:"):
+					res.DoneStep[len(res.DoneStep)-1] = s.Steps
+					inProcess = false
+				case label == "cmd/thermal-recorder/cptvfilerecorder.go:StartRecording:entry":
+					time.Sleep(time.Millisecond)
+				case label == "cmd/thermal-recorder/main.go:handleConn:entry":
+					res.ConnStep = append(res.ConnStep, s.Steps)
+				}
+			}
+			defer func() { verifsim.Hook = nil }()
+			if opt.Observe != nil {
+				s.Between = func(s *verifsim.Sched) { opt.Observe(s, outDir, res) }
+			}
+			loopTask = s.Go("frame-loop", func() {
+				for ci, cn := range sc.Conns {
+					curConn = ci
+					curCn = cn
+					if err := os.WriteFile(filepath.Join(confDir, goconfig.ConfigFileName), []byte(cn.Cfg.toml(outDir)), 0644); err != nil {
+						panic(err)
+					}
+					conf, err := ParseConfig(confDir)
+					if err != nil {
+						res.ParseErr = err
+						return
+					}
+					if ci == 0 {
+						deleteTempFiles(conf.OutputDir)
+					}
+					a, b := net.Pipe()
+					pipes = append(pipes, a, b)
+					s.Go(fmt.Sprintf("camera%d", ci), func() { cameraSched(cn, b) })
+					cr := cConnResult{}
+					func() {
+						defer func() {
+							if p := recover(); p != nil {
+								if verifsim.IsAbort(p) {
+									panic(p) // scheduler abort must propagate
+								}
+								cr.Panic = fmt.Sprint(p)
+							}
+						}()
+						cr.Err = handleConn(a, conf)
+					}()
+					a.Close()
+					cr.Header = headerInfo
+					res.Conns = append(res.Conns, cr)
+					if cr.Panic != "" {
+						return
+					}
+					verifsim.Yield("between-connections")
+				}
+			})
+			_ = loopTask
+			svc := &service{}
+			for ci := 0; ci < opt.Clients; ci++ {
+				ci := ci
+				s.Go(fmt.Sprintf("client%d", ci), func() {
+					last := -1
+					for k := range opt.ReqGaps[ci] {
+						verifsim.SleepSteps(opt.ReqGaps[ci][k])
+						rq := cRequest{Kind: opt.ReqKinds[ci][k], Client: ci, Invoke: s.Steps, Value: -1, Conn: curConn}
+						switch rq.Kind {
+						case 's':
+							f, derr := svc.TakeSnapshot(last)
+							if derr != nil {
+								rq.Err = fmt.Sprint(derr.Body...)
+							} else if f != nil {
+								rq.Value, rq.Torn = uniformValue(f)
+								rq.FrameNum = f.Status.FrameCount
+								last = f.Status.FrameCount
+							}
+						case 't':
+							if derr := svc.TakeTestRecording(); derr != nil {
+								rq.Err = fmt.Sprint(derr.Body...)
+							}
+						case 'i':
+							m, derr := svc.CameraInfo()
+							if derr != nil {
+								rq.Err = derr.Name
+							}
+							rq.Info = m
+						}
+						rq.Return = s.Steps
+						res.Reqs = append(res.Reqs, rq)
+					}
+				})
+			}
+			s.Run()
+			res.Deadlock = s.Deadlock
+			res.Steps, res.Switches, res.Sig, res.Served = s.Steps, s.Switches, s.Signature(), s.Served
+			res.End = time.Now()
+			if s.Aborted() {
+				// unblock tasks that sit in pipe reads/writes so that the bubble can end
+				for _, c := range pipes {
+					c.Close()
+				}
+			}
+		})
+		if bp != "" && res.Deadlock == "" && !r.Failed() {
+			res.Deadlock = bp
+		}
+	}()
+	verifsim.SetMode(verifsim.ModeOff)
+	verifsim.Hook = nil
+	res.Final = listTree(outDir)
+	for _, f := range res.Final {
+		if strings.HasSuffix(f, ".cptv") {
+			res.Decoded[f] = decodeCPTV(filepath.Join(outDir, f))
+		}
+	}
+	return res
+}
+
+// cameraSched is cameraPlain as a scheduled task (yields after every blocking call;
+// test-recording requests are issued by client tasks instead).
+func cameraSched(cn *cConn, conn net.Conn) {
+	defer conn.Close()
+	c := &cn.Cfg
+	period := time.Second / time.Duration(c.Fps)
+	var pending []byte
+	owed := time.Duration(0)
+	ci := 0
+	flush := func(all bool) bool {
+		for len(pending) > 0 {
+			n := cn.Chunks[ci%len(cn.Chunks)]
+			if n > len(pending) {
+				if !all {
+					return true
+				}
+				n = len(pending)
+			}
+			ci++
+			_, err := conn.Write(pending[:n])
+			verifsim.Yield("camera:after-write")
+			if err != nil {
+				return false
+			}
+			pending = pending[n:]
+		}
+		return true
+	}
+	pending = append(pending, c.headerBytes()...)
+	lastFrame := -1
+	for i := range cn.Ev {
+		if cn.Ev[i].Kind == 'F' || cn.Ev[i].Kind == 'B' {
+			lastFrame = i
+		}
+	}
+	for i := range cn.Ev {
+		e := &cn.Ev[i]
+		switch e.Kind {
+		case 'C':
+			pending = append(pending, []byte("clear")...)
+		case 'F', 'B':
+			raw := cn.rawFrame(e)
+			if i == lastFrame && cn.CutAt >= 0 {
+				raw = raw[:cn.CutAt]
+			}
+			pending = append(pending, raw...)
+			owed += period
+			if !flush(false) {
+				return
+			}
+			if len(pending) == 0 {
+				time.Sleep(owed)
+				verifsim.Yield("camera:after-sleep")
+				owed = 0
+			}
+		}
+	}
+	flush(true)
+	time.Sleep(owed + period)
+	verifsim.Yield("camera:done")
 }
